@@ -24,6 +24,7 @@ import Rs1090.Proofs.CprMetres
 import Rs1090.Proofs.CprFloat
 import Rs1090.Proofs.IeeeRound
 import Rs1090.Proofs.CprFloatAsm
+import Rs1090.Gen.HiddenState
 namespace Rs1090.Props.C04
 open Rs1090 Rs1090.Model.Cpr Rs1090.Spec.Cpr Rs1090.Proofs.Cpr
 
@@ -607,5 +608,17 @@ example : 1186 / 100 < mPerDeg * (dlat 1 / 262144) + mPerDeg * cosUB 2 * (dlonOf
     budget 2 1 262144 ≤ (9628 / 1000) ^ 2 := by
   refine ⟨?_, le_trans (budget_air 2 (by norm_num) (by norm_num) 1 le_rfl) (by norm_num [chordMax])⟩
   rw [dlat1]; norm_num [mPerDeg, cosUB, dlonOf]
+
+/-! ### hidden state (the code side of "is a function of its input") -/
+
+/-- **No hidden state besides the reviewed one** in the files this property is anchored in.  `airborne_position` and `nl` are functions of their arguments; cpr.rs holds nothing between calls (seed C05-f-m1 put a one-entry NL memo there).
+    The translator lists on every run every construct through which a Rust function can carry state from one
+    call to the next without it showing in its signature (`static`, `thread_local!`, `lazy_static!`,
+    `OnceCell`/`OnceLock`/`Lazy`, `Cell`/`RefCell`/`UnsafeCell`, `Mutex`/`RwLock`, atomics, `unsafe`; whole
+    files, gen/extractors/hidden_state.py); a memo, cache or counter added there breaks this obligation by
+    name, whatever inputs the harness happens to generate. -/
+theorem hidden_state_reviewed :
+    Gen.HiddenState.sitesIn ["decode/cpr.rs"] =
+      [] := by decide
 
 end Rs1090.Props.C04
